@@ -29,6 +29,7 @@ type Ctx struct {
 	Notes   []string
 	Assume  []string
 	Explain string
+	Suffix  string // appended to the construct (e.g. "@386" for the 32-bit pass of the thorough tier)
 	byKey   map[string]*Obligation
 }
 
@@ -37,6 +38,7 @@ func (c *Ctx) add(status, rule, construct, pos, detail string, n int) *Obligatio
 	if construct != "" {
 		key += "/" + construct
 	}
+	key += c.Suffix
 	if c.byKey == nil {
 		c.byKey = map[string]*Obligation{}
 	}
